@@ -34,7 +34,7 @@ CHECKS = {
     "C11": (
         "exhaustive enumeration: same spaces as C10 with the Round methods, against boundary predicates plus the documented midpoints; the same call-history exploration as C10; every microsecond of three one-minute windows around decision points (thorough: of one hour across the epoch, and every whole second of one full 400-year cycle on the Oracle-style date)",
         "Rounding of every date / every date at every critical time (both sides of 12:00, :30, :30s) / every second of selected days, 12 units, three types, compared with T/N from the independent boundary predicates and the documented midpoint per unit; boundary inputs must be unchanged; monotonicity is asserted along the sweep (except ISO year); failure required exactly when the chosen boundary is outside the range. Shortened weeks only require membership in {T, N}, monotonicity and Date/Timestamp agreement.",
-        "Trusted: boundary predicates, midpoint table typed from the trait documentation. One open known finding (F2, round_century for years divisible by 100) is suppressed by signature.",
+        "Trusted: boundary predicates, midpoint table typed from the trait documentation. One open known finding (F2, round_century for years divisible by 100) is suppressed by signature. Where the chosen boundary would lie before 0001-01-01 (Sunday week of the first days) both a failure and the only in-range adjacent boundary are admitted.",
         "DESIGN.md §4 C11",
     ),
 
@@ -65,7 +65,7 @@ CHECKS = {
     "C14": (
         "exhaustive cross product of receiver pools x a float operand alphabet (special values, integers, dyadic and decimal grids, tiny/huge, signed zero, infinities, NaN) x mul/div, judged by exact rational arithmetic with a 2^-52 band; complete product of a window of counts (+/-120, thorough +/-1200, as months and microseconds) x every multiple of 1/16 in +/-32 (thorough +/-256)",
         "Each (receiver, operand, operation) triple runs on the real code; the reference decodes the double into sign/mantissa/exponent and computes the real product or quotient as an exact rational; a returned value must be the truncation toward zero of a number within relative 2^-52 of it, exactly x*k when that is an exactly representable integer below 2^53, and errors must be classified as the property states (NaN -> invalid number, infinite result -> numeric overflow, zero divisor -> divide by zero first, finite out-of-range -> interval range); (-x)*k = -(x*k) = x*(-k) is compared directly.",
-        "Trusted: refmodel/exact.rs (big-integer rational arithmetic, unit-tested). Only the operand alphabet is covered, not all doubles; exactness beyond the 2^-52 band is demanded for multiplication only, as the property states. Two-step call histories over a small structured alphabet run on fresh threads.",
+        "Trusted: refmodel/exact.rs (big-integer rational arithmetic, unit-tested). Only the operand alphabet is covered, not all doubles; exactness beyond the 2^-52 band is demanded for multiplication only, as the property states. Two-step call histories over a small structured alphabet run on fresh threads. A finite real result beyond the double range may be reported as numeric overflow or as an interval-range error (both readings of the wording are admitted).",
         "DESIGN.md §4 C14",
     ),
     "C16": (
@@ -120,7 +120,7 @@ CHECKS = {
     ),
     "C18": (
         "exhaustive enumeration over the environment: every possible current local date (all 3,652,059 days, three times of day) injected through the verif-hooks clock override, crossed with partial pictures, short-year pictures, the omitted 12-hour field, complete pictures, the now() constructors and the Time conversions; clocks outside years 1..9999",
-        "The wall clock is the crate's only environment input; with the verif-hooks feature every one of its six reads goes through a thread-local override, so the check decides the clock. For every clock day the partial pictures must default year/month from the clock, day to 1, time to zero (12 for an omitted 12-hour field), complete 1-3 digit years with the leading digits of the clock year, and fail - never normalise - when the composed triple is not a real date; complete pictures must give the same value under every clock; now()/TryFrom<Time> must report the injected instant (Oracle date floored) and fail cleanly for clocks outside the range. Ownership of the clock is shown by a canary against the real clock, the read counter and an identical-replay slice.",
+        "The wall clock is the crate's only environment input; with the verif-hooks feature every one of its six reads goes through a thread-local override, so the check decides the clock. For every clock day the partial pictures must default year/month from the clock, day to 1, time to zero (12 for an omitted 12-hour field), complete 1-3 digit years with the leading digits of the clock year, and fail - never normalise - when the composed triple is not a real date; complete pictures must give the same value under every clock; now()/TryFrom<Time> must report the injected instant (Oracle date floored) and fail cleanly for clocks outside the range. Ownership of the clock is shown by a canary against the real clock, the read counter and an identical-replay slice. Texts that spell a full four-digit year under a short year field (YY with 0026) must give the same outcome under every clock (decided differentially against one reference clock).",
         "Trusted: chrono NaiveDateTime construction (hook input), the add-only hook patch. Needs the hook (cargo feature verif-hooks). The un-injected clock is compared with chrono::Local under TZ=JST-9 and again after a change of TZ inside the process (the check sets TZ itself and sleeps 1.3 s for chrono's zone refresh).",
         "DESIGN.md §4 C18",
     ),
